@@ -357,4 +357,49 @@ MUTANTS = [
          old="            for i in range(len(z)):\n                if isinstance(z[i], BaseException):", new="            for i in range(len(z) - (len(z) > 2)):\n                if isinstance(z[i], BaseException):"),
     dict(id='C15-m4', prop='C15', file='multiprocessing/remote_exception.py', desc='EnsembleError.__reduce__ rebuilds from a copy that drops None members count (n recomputed)',
          old="        return type(self), (self.args[1],)", new="        r = dict(self.args[1])\n        r['n'] = sum(1 for v in r['y'] if v is not None and not isinstance(v, tuple))\n        return type(self), (r,)"),
+    # ---------------- C12
+    dict(id='C12-m1', prop='C12', file='multiprocessing/context.py', desc='D13 regression: EOF path raises in the collector thread without resolving the future',
+         old="                error = OSError(exitcode, msg)\n                error.__cause__ = exc", new="                raise OSError(exitcode, msg) from exc"),
+    dict(id='C12-m2', prop='C12', file='multiprocessing/context.py', desc='every signal is treated like SIGTERM (silent success)',
+         old="            if exitcode == errno.ENOTBLK:  # 15", new="            if exitcode > 0:  # any signal"),
+    dict(id='C12-m3', prop='C12', file='multiprocessing/context.py', desc='exception() returns None when the exitcode is 1',
+         old="        self._result_collector_thread_.join()\n        return self._future_.exception()", new="        self._result_collector_thread_.join()\n        if self.exitcode == 1:\n            return None\n        return self._future_.exception()"),
+    dict(id='C12-m4', prop='C12', file='threading/__init__.py', desc='Thread.join does not re-raise',
+         old="        if self._future_.exception():\n            raise self._future_.exception()\n\n    def done(self) -> bool:", new="        self._future_.exception()\n\n    def done(self) -> bool:"),
+    dict(id='C12-m5', prop='C12', file='threading/__init__.py', desc='sys.exit("text") in a thread is reported as success',
+         old="                else:\n                    self.handle_exception(e)\n                    self._future_.set_exception(e)\n        except BaseException as e:", new="                else:\n                    self._future_.set_result(None)\n        except BaseException as e:"),
+    dict(id='C12-m6', prop='C12', file='threading/__init__.py', desc='D24 regression: future created in run()',
+         old="        self._future_: concurrent.futures.Future = concurrent.futures.Future()\n", new="        self._future_: concurrent.futures.Future = None\n"),
+    # ---------------- C13
+    dict(id='C13-m1', prop='C13', file='multiprocessing/server_process.py', desc='RebuildProxy drops the compensating decref',
+         old="        if server:\n            server.decref(None, token.id)\n        else:\n            obj._dispatch('decref')\n\n    return obj", new="        if server:\n            server.decref(None, token.id)\n\n    return obj"),
+    dict(id='C13-m2', prop='C13', file='multiprocessing/server_process.py', desc='__reduce__ no longer increments before the pickle leaves (client side)',
+         old="            conn = self._Client(self._token.address, authkey=self._authkey)\n            dispatch(conn, None, 'incref', (self._id,))\n\n        kwds = {}", new="            pass\n\n        kwds = {}"),
+    dict(id='C13-m3', prop='C13', file='multiprocessing/server_process.py', desc='MemoryBlock release closes but does not unlink',
+         old="            mem.close()\n            mem.unlink()", new="            mem.close()"),
+    dict(id='C13-m4', prop='C13', file='multiprocessing/server_process.py', desc='D27 regression: inherited proxies skip incref',
+         old="    incref = kwds.pop('incref', True)\n    # Unlike", new="    incref = kwds.pop('incref', True) and not getattr(current_process(), '_inheriting', False)\n    # Unlike"),
+    # ---------------- C14
+    dict(id='C14-m1', prop='C14', file='multiprocessing/server_process.py', desc='#ERROR sent without wrapping (no server-side traceback)',
+         old="            msg = ('#ERROR', self._wrap_user_exc(e))", new="            msg = ('#ERROR', e)"),
+    dict(id='C14-m2', prop='C14', file='multiprocessing/server_process.py', desc='D31 regression: generated __imul__ replaces the hand-written one',
+         old="    'reverse',\n    'sort',\n)\nclass ListProxy(BaseProxy):", new="    'reverse',\n    'sort',\n    '__imul__',\n)\nclass ListProxy(BaseProxy):"),
+    dict(id='C14-m3', prop='C14', file='multiprocessing/server_process.py', desc='ValueProxy.set silently ignores negative values',
+         old="        return self._callmethod('set', (value,))", new="        if isinstance(value, int) and value < -5:\n            return None\n        return self._callmethod('set', (value,))"),
+    dict(id='C14-m4', prop='C14', file='multiprocessing/server_process.py', desc='managed() returns the object itself (a copy reaches the client) for lists longer than 2',
+         old="    server = get_server()\n    if not server:\n        return obj\n", new="    server = get_server()\n    if not server or (isinstance(obj, list) and len(obj) > 2):\n        return obj\n"),
+    # ---------------- C18
+    dict(id='C18-m1', prop='C18', file='socket.py', desc='header length counts characters of the repr for str payloads with non-ascii (utf8 encoder)',
+         old="        return data.encode('utf8')", new="        return data.encode('utf8') if data.isascii() else data.encode('utf8')[: len(data)]"),
+    dict(id='C18-m2', prop='C18', file='socket.py', desc='server answers a connection from a LIFO when more than 2 responses are queued',
+         old="                    req_id, t = await asyncio.wait_for(reqs.get(), 0.1)", new="                    req_id, t = await asyncio.wait_for(reqs.get(), 0.1)\n                    if reqs.qsize() > 2:\n                        await reqs.put((req_id, t))\n                        req_id, t = await reqs.get()"),
+    dict(id='C18-m3', prop='C18', file='socket.py', desc='read_record strips trailing whitespace of none-encoded payloads',
+         old="    assert encoder == 'none'\n    return data  # bytes unchanged", new="    assert encoder == 'none'\n    return data.rstrip(b'\\n') if len(data) > 1 else data"),
+    # ---------------- C20
+    dict(id='C20-m1', prop='C20', file='multiprocessing/context.py', desc='D14 regression: logger thread ended as soon as the outcome arrives',
+         old="        multiprocessing.connection.wait([self.sentinel])\n        self._logger_queue_.put(None)", new="        self._logger_queue_.put(None)"),
+    dict(id='C20-m2', prop='C20', file='multiprocessing/context.py', desc='parent drops a forwarded record whose message repeats the previous one',
+         old="            logger = logging.getLogger(record.name)\n            if record.levelno >= logger.getEffectiveLevel():", new="            logger = logging.getLogger(record.name)\n            if getattr(logger, '_last_msg', None) == record.getMessage():\n                continue\n            logger._last_msg = record.getMessage()\n            if record.levelno >= logger.getEffectiveLevel():"),
+    dict(id='C20-m3', prop='C20', file='multiprocessing/context.py', desc='parent handles records regardless of the parent logger level',
+         old="            if record.levelno >= logger.getEffectiveLevel():\n                logger.handle(record)", new="            if record.levelno >= logging.DEBUG:\n                logger.handle(record)"),
 ]
